@@ -28,9 +28,9 @@ type templateFam struct{}
 func init() { core.Register("template", templateFam{}) }
 
 type templateCase struct {
-	API  string            `json:"api"`
-	Fmt  []int             `json:"fmt"`
-	Args []json.RawMessage `json:"args"`
+	API  string              `json:"api"`
+	Fmt  []int               `json:"fmt"`
+	Args []json.RawMessage   `json:"args"`
 	Env  [][]json.RawMessage `json:"env"`
 }
 
@@ -124,7 +124,26 @@ func (templateFam) Exec(c core.CaseIn, rng *rand.Rand, emit func(cas, conc, obs 
 			}
 			mk = func() snippet.Snippet { return snippet.T(format, list...) }
 		} else {
-			mk = func() snippet.Snippet { return snippet.T(format, args) }
+			// one Args map, which the caller goes on using for something else once T has returned (a generator that
+			// fills the same map in a loop and renders the collected snippets later): the bindings are those of the call
+			mk = func() snippet.Snippet {
+				mine := snippet.Args{}
+				for k, v := range args {
+					mine[k] = v
+				}
+				t := snippet.T(format, mine)
+				for k := range mine {
+					mine[k] = snippet.Block("REBOUND")
+				}
+				for _, k := range []string{"a", "b", "ab", "zz"} {
+					if _, ok := args[k]; ok {
+						delete(mine, k)
+					} else {
+						mine[k] = snippet.Block("LATE")
+					}
+				}
+				return t
+			}
 		}
 	case "Sprintf":
 		ks, err := kinds()
